@@ -8,7 +8,7 @@ def main(tier, replay=None):
     res = Result("C19", tier, "model_checking")
     q = tier == "quick"
     fams = [
-        dict(scn="c19", name="pop3d-state-graph", opts=["mode=pop3d", "fulldepth=%d" % (2 if q else 3)] + ([] if q else ["thorough=1"]), bounds="0,0,0,0", total=0, deadline=1800),
+        dict(scn="c19", name="pop3d-state-graph", opts=["mode=pop3d", "fulldepth=%d" % (2 if q else 3)] + ([] if q else ["thorough=1"]), bounds="0,0,0,0", total=0, deadline=1800, qcap=0 if q else 8000000),
         dict(scn="c19", name="popup-sessions", opts=["mode=popup", "maxdepth=%d" % (3 if q else 4)], bounds="0,0,0,0", total=0, deadline=900),
     ]
     fams.append(dict(scn="c19", name="pop3d-message-file-errors", opts=["mode=pop3d", "maxdepth=%d" % (1 if q else 2)], bounds="0,1,0,0", total=1, deadline=1200))
